@@ -74,6 +74,13 @@ CHECKS = {
    note="Overflow kind is recognised by error text (Overflow / BodyLimitExceeded) or status 413. A declared Content-Length above the limit may fail early. TempFile multipart fields and custom FieldReader implementations are not covered.",
    technique="property-based testing with boundary-value generators around the limit, chunking metamorphic relation, pull-count invariant on a scripted payload stream; reference codecs for content codings",
    design_ref="DESIGN.md §5 C12"),
+ "C13": dict(
+   engine="simnet",
+   category="exploration",
+   text="(response) an actix-web App wrapped in Compress is served by the real HttpService/h1 dispatcher over the scripted socket (the composition HttpServer uses); handlers produce bodies of 0-8 chunks with sizes at 1/1023/1024/1025/2048/2049 and up to 100 KB, compressible or not, as Bytes / stream / stream with declared Content-Length / SizedStream, with status 200/204/206/304/404, optionally already encoded and labelled by the handler, with text / json / image / svg / video content types; requests carry an Accept-Encoding generated from a grammar (gzip deflate br zstd identity * compress x-foo, q in 0/0.0/0.001/0.5/1/1.0/0.999, OWS, absent, empty). The wire is parsed by the independent HTTP/1 response parser (so a stale Content-Length breaks framing visibly) and the body is decoded with flate2/brotli/zstd directly according to the response's Content-Encoding: it must equal the handler's bytes; the chosen coding (identity included) must be acceptable by the RFC 7231 5.3.4 predicate; pass-through classes (handler-set Content-Encoding, 204, 304, 206, empty body of known size) must arrive byte-for-byte with the handler's headers; the connection must not stall. (request) bodies of 0-200 KB encoded with the codec libraries are sent with Content-Encoding gzip/deflate/br/zstd in Content-Length or chunked framing under random segmentation to an echo handler: the handler must see exactly the original bytes. 1.8*10^4 (quick) to 3.6*10^5 (thorough) cases.",
+   note="A 406 is accepted whenever the server declines (the property constrains the coding that is chosen). image/* (except svg) and video/* are sent unencoded by design and exempt from the identity check. Headers with two members for the same coding are not generated. Compressed request streams cut short by the client are observed (flate2 accepts them at finish) but not judged: the property speaks of complete bodies. spawn_blocking threads used by the codecs are real; only their results are observed.",
+   technique="differential property testing: responses decoded by reference codec libraries through an independent HTTP parser; negotiation checked against an RFC predicate; generated Accept-Encoding grammar",
+   design_ref="DESIGN.md §5 C13"),
  "C01": dict(
    engine="simnet",
    category="exploration",
